@@ -270,6 +270,76 @@ def candidate_lengths(rn, el, ok):
     return [len(w), len(w) + 1, len(w) + 2][:3]
 
 
+def shortest_len_containing(rn, el, ok, c):
+    """Length of a shortest word of the reference language over `ok` that contains c (None if there is none)."""
+    from metapype.eml import rule as R
+    if el == "metadata":
+        return 1
+    spec = R.rules_dict[rn][1]
+    alpha = [a for a in dict.fromkeys(M.symbols(spec)) if a in ok]
+    if c not in alpha:
+        return None
+    full = list(dict.fromkeys(M.symbols(spec)))
+    n, delta, finals, dead = M.build_dfa(M.compile_spec(spec, rn in M.MIXED_RULES, False), full)
+    seen = {(0, False): 0}
+    frontier = [(0, False)]
+    while frontier:
+        nxt = []
+        for q, has in frontier:
+            if has and q in finals:
+                return seen[(q, has)]
+            for a in alpha:
+                q2 = delta[(q, a)]
+                if q2 == dead:
+                    continue
+                st = (q2, has or a == c)
+                if st not in seen:
+                    seen[st] = seen[(q, has)] + 1
+                    nxt.append(st)
+        frontier = nxt
+    return None
+
+
+def pair_job(job):
+    """z3 synthesises an accepted node of element `el` whose children (all completable) include the child name `c`."""
+    el, rn, c, ok, L0, sd = job
+    res = {"element": el, "child": c, "queries": {"sat": 0, "unsat": 0, "unknown": 0}, "functions": set(), "found": None}
+    for ckind in ("none", "sym"):
+        for L in (L0, L0 + 1):
+            st = nodeenc.Setup(rn, element=el, content=ckind, attrs="sym", nsym_children=L, seed=sd)
+            try:
+                view, h = nodeenc.run(st)
+            except Unsupported as e:
+                res["unsupported"] = str(e)
+                res["functions"] = sorted(res["functions"])
+                return res
+            it = view.q
+            res["functions"] |= view.functions
+            names = h.get("names", [])
+            cons = [view.normal, zor(*[n.z == it.mkint(it.intern.code(c)) for n in names])]
+            for n in names:
+                cons.append(zor(*[n.z == it.mkint(it.intern.code(k)) for k in ok]))
+            if ckind == "sym":
+                cons.append(h["content"].z >= 0)
+                cons.append(znot(h["A"].Surrogate(h["content"].z)))
+            rr = it.solver.check(zand(*cons))
+            res["queries"][str(rr)] += 1
+            if rr == z3.sat:
+                m = it.solver.model()
+                P, V = h["P"], h["V"]
+                attrs = {}
+                for k in P:
+                    if z3.is_true(m.eval(P[k], model_completion=True)):
+                        attrs[k] = it.intern.decode(it.val(m.eval(V[k].z, model_completion=True)), foreign="v")
+                content = None if ckind == "none" else it.intern.names[it.val(m.eval(h["content"].z, model_completion=True))]
+                kids = [it.intern.decode(it.val(m.eval(n.z, model_completion=True))) for n in names]
+                res["found"] = {"content": content, "attrs": attrs, "children": kids}
+                res["functions"] = sorted(res["functions"])
+                return res
+    res["functions"] = sorted(res["functions"])
+    return res
+
+
 def build_tree(el, plan, counter):
     from metapype.model.node import Node
     p = plan[el]
@@ -415,7 +485,61 @@ def run(tier, only=None):
             rep.mismatch.append("witness for %s is not well-founded" % el)
         except MetapypeRuleError as e:
             rep.mismatch.append("synthesised witness for %s rejected by the real validate.tree: %s" % (el, e))
-    rep.extra["witness_trees_validated_by_real_code"] = validated
+    # (f) every child a rule permits can actually be accepted IN CONTEXT: a witness tree per (element, permitted child)
+    from metapype.model.node import Node as _Node
+    pjobs = []
+    ok_names = sorted(plan.keys())
+    okset = set(ok_names)
+    for el in elements:
+        rn = R.node_mappings[el]
+        if rn not in R.rules_dict or el not in plan or el == "metadata":
+            continue
+        for c in dict.fromkeys(M.symbols(R.rules_dict[rn][1])):
+            if c not in okset:
+                continue
+            L0 = shortest_len_containing(rn, el, okset, c)
+            if L0 is not None:
+                pjobs.append((el, rn, c, ok_names, L0, sd))
+    npairs = 0
+    for status, job, r in common.pool_map(pair_job, pjobs, chunksize=4):
+        el, rn, c = job[0], job[1], job[2]
+        if status != "ok":
+            rep.mismatch.append("pair witness %s/%s: engine crashed: %s" % (el, c, r[:300]))
+            continue
+        rep.encodings += 1
+        for k, v in r["queries"].items():
+            rep.count(k, v)
+        rep.functions.update(r["functions"])
+        if "unsupported" in r:
+            rep.inconclusive.append("pair witness %s/%s: unsupported construct: %s" % (el, c, r["unsupported"]))
+            continue
+        if not r["found"]:
+            continue                      # the child cannot occur in any accepted sequence within the bound: nothing to accept in context
+        npairs += 1
+        rep.nontrivial.add(("pair", el, c))
+        _Node.store.clear()
+        local = dict(plan)
+        try:
+            counter = [0]
+            p = r["found"]
+            counter[0] += 1
+            t = _Node(el, id="w%d" % counter[0])
+            t._content = p["content"]
+            for k, v in p["attrs"].items():
+                t.add_attribute(k, v)
+            for ch in p["children"]:
+                t.add_child(build_tree(ch, local, counter))
+            validate.tree(t)
+        except MetapypeRuleError as e:
+            rep.violation({"kind": "context", "element": el, "child": c},
+                          "%s accepts a %s child in single-node validation, but the assembled tree %s > %r is rejected by whole-tree validation: %s" % (
+                              el, c, el, p["children"], e), {"harness": "c10pair", "element": el, "child": c, "node": p})
+        except Exception as e:
+            rep.violation({"kind": "context", "element": el, "child": c},
+                          "%s accepts a %s child in single-node validation, but whole-tree validation of %s > %r lets %s escape: %s" % (
+                              el, c, el, p["children"], type(e).__name__, e), {"harness": "c10pair", "element": el, "child": c, "node": p})
+    rep.extra["pair_witness_trees"] = npairs
+    rep.extra["witness_trees_validated_by_real_code"] = validated + npairs
     rep.extra["traces_validated_against_impl"] = validated
     rep.extra["source_fingerprint"] = common.src_fingerprint()
     return rep.finish()
